@@ -294,6 +294,89 @@ def series_feed_queries(ctx, chk, rule):
     return n_feed
 
 
+def _jump_delta(ctx, chk, rule, mas, maflow, mc, a_jt, bl, why):
+    """jump threshold passed to match_storms = rate threshold x step length in hours"""
+    try:
+        jd = maflow.expand(a_jt, keep=set(mas.params))
+        # timedelta(seconds=X).total_seconds() is X; .seconds is X modulo one day
+        class _TD(ast.NodeTransformer):
+            lossy = None
+            unread = None
+
+            def _td_arg(self, c):
+                if isinstance(c, ast.Call) and (dotted_name(c.func) or "").split(".")[-1] == "timedelta" and not c.args \
+                        and len(c.keywords) == 1 and c.keywords[0].arg == "seconds":
+                    return c.keywords[0].value
+                return None
+
+            def visit_Call(self, n):
+                self.generic_visit(n)
+                if isinstance(n.func, ast.Attribute) and n.func.attr == "total_seconds" and not n.args:
+                    x = self._td_arg(n.func.value)
+                    if x is not None:
+                        return x
+                if isinstance(n.func, ast.Name) and n.func.id == "float" and len(n.args) == 1:
+                    return n.args[0]
+                if self._td_arg(n) is None:
+                    self.unread = n
+                return n
+
+            def visit_Attribute(self, n):
+                self.generic_visit(n)
+                if n.attr in ("seconds", "days", "microseconds") and self._td_arg(n.value) is not None:
+                    self.lossy = n
+                return n
+        td = _TD()
+        jd = ast.fix_missing_locations(td.visit(jd))
+        if td.lossy is not None:
+            chk.ob(rule, False, where_of(mas, enclosing_stmt(a_jt) if not isinstance(a_jt, ast.Name) else (maflow.cfg.stmt_of.get(maflow.unique_def_node(a_jt)) or mc)),
+                   "jump threshold per step uses `%s`: one field of the timedelta, not its length" % ast.unparse(td.lossy)[:70],
+                   "rate threshold [mm/h] x time_step_s / 3600", key="match_all_storms|jump-delta",
+                   why=why + "; timedelta.seconds is the step modulo one day, so a daily step gives a threshold of 0")
+            return
+        if td.unread is not None:
+            chk.indeterminate(rule, where_of(mas, mc), "jump threshold per step goes through `%s`, which this rule does not read" % ast.unparse(td.unread)[:70])
+            return
+        step_names = [n.id for n in ast.walk(jd) if isinstance(n, ast.Name) and n.id not in mas.params]
+        # the step factor must be the SQL time step in hours
+        step_ok = False
+        sdesc = ""
+        if len(step_names) == 1:
+            e = bl.get(step_names[0])
+            if e is not None:
+                sp = sql_poly(e, lambda c: c[2])
+                step_ok = sp == Poly.atom("time_step_s") * _inv3600()
+                sdesc = expr_str(e)
+        jp = py_poly(jd)
+        prod_ok = len(step_names) == 1 and jp == Poly.atom(mas.params[3]) * Poly.atom(step_names[0])
+        if len(step_names) == 1 and bl.get(step_names[0]) is not None and not (step_ok and prod_ok):
+            # the division by 3600 may be done on either side of the query: compare the composed expression
+            try:
+                total = jp.subst({step_names[0]: sql_poly(bl[step_names[0]], lambda c: c[2])})
+                if total == Poly.atom(mas.params[3]) * Poly.atom("time_step_s") * _inv3600():
+                    step_ok = prod_ok = True
+            except Exception:
+                pass
+        chk.ob(rule, step_ok and prod_ok, where_of(mas, enclosing_stmt(a_jt) if not isinstance(a_jt, ast.Name) else (maflow.cfg.stmt_of.get(maflow.unique_def_node(a_jt)) or mc)),
+               "jump threshold per step = %s with step = %s" % (ast.unparse(jd), sdesc), "rate threshold [mm/h] x time_step_s / 3600",
+               key="match_all_storms|jump-delta", why=why)
+    except (NotAlgebraic, IndexError) as exc:
+        chk.indeterminate(rule, where_of(mas, mc), "jump threshold per step: %s" % exc)
+
+
+def jump_delta_obligation(ctx, chk, rule, why):
+    """The same obligation for another property's rule id (C01: both classifiers must mean the same jump)."""
+    mas = ctx.func("classify.match_all_storms")
+    maflow = Flow.of(mas)
+    names, _ = pair_flow(ctx)
+    mc = names["match_call"]
+    if len(mc.args) != 4:
+        chk.indeterminate(rule, where_of(mas, mc), "match_storms call does not have four positional arguments")
+        return
+    bl = {b.names[i]: b.site.stmt.columns[i][0] for b in bindings(ctx, mas) for i in range(len(b.names)) if b.names[i]}
+    _jump_delta(ctx, chk, rule, mas, maflow, mc, mc.args[3], bl, why)
+
+
 def run(ctx, chk, tier="quick"):
     chk.explanation = (
         "Comparison normal forms of the two run-defining predicates and of every comparison against a "
@@ -407,33 +490,7 @@ def run(ctx, chk, tier="quick"):
                    "(rainfall intensity, water level, storm threshold, jump threshold x step)", key="match_all_storms|match-args",
                    why="swapped series or thresholds classify the wrong quantity")
         # jump delta
-        try:
-            jd = maflow.expand(a_jt, keep=set(mas.params))
-            step_names = [n.id for n in ast.walk(jd) if isinstance(n, ast.Name) and n.id not in mas.params]
-            # the step factor must be the SQL time step in hours
-            step_ok = False
-            sdesc = ""
-            if len(step_names) == 1:
-                e = bl.get(step_names[0])
-                if e is not None:
-                    sp = sql_poly(e, lambda c: c[2])
-                    step_ok = sp == Poly.atom("time_step_s") * _inv3600()
-                    sdesc = expr_str(e)
-            jp = py_poly(jd)
-            prod_ok = len(step_names) == 1 and jp == Poly.atom(mas.params[3]) * Poly.atom(step_names[0])
-            if len(step_names) == 1 and bl.get(step_names[0]) is not None and not (step_ok and prod_ok):
-                # the division by 3600 may be done on either side of the query: compare the composed expression
-                try:
-                    total = jp.subst({step_names[0]: sql_poly(bl[step_names[0]], lambda c: c[2])})
-                    if total == Poly.atom(mas.params[3]) * Poly.atom("time_step_s") * _inv3600():
-                        step_ok = prod_ok = True
-                except Exception:
-                    pass
-            chk.ob("C03.O1", step_ok and prod_ok, where_of(mas, enclosing_stmt(a_jt) if not isinstance(a_jt, ast.Name) else (maflow.cfg.stmt_of.get(maflow.unique_def_node(a_jt)) or mc)),
-                   "jump threshold per step = %s with step = %s" % (ast.unparse(jd), sdesc), "rate threshold [mm/h] x time_step_s / 3600",
-                   key="match_all_storms|jump-delta", why="the increment threshold is the rate threshold multiplied by the step length in hours")
-        except (NotAlgebraic, IndexError) as exc:
-            chk.indeterminate("C03.O1", where_of(mas, mc), "jump threshold per step: %s" % exc)
+        _jump_delta(ctx, chk, "C03.O1", mas, maflow, mc, a_jt, bl, "the increment threshold is the rate threshold multiplied by the step length in hours")
     else:
         chk.indeterminate("C03.O1", where_of(mas, mc), "match_storms call does not have four positional arguments")
 
@@ -455,6 +512,8 @@ def run(ctx, chk, tier="quick"):
                     side = "left"
                 if side is None:
                     continue
+                if isinstance(n.ops[0], (ast.Is, ast.IsNot)):
+                    continue          # `thr is None`: whether it was given, not a comparison of values
                 n_cmp += 1
                 op = type(n.ops[0])
                 # normalised with the threshold on the right
@@ -467,6 +526,21 @@ def run(ctx, chk, tier="quick"):
                        key="%s|threshold-compare|%s|%s" % (f.qualname, role, ast.unparse(n.ops[0].__class__()) if False else type(n.ops[0]).__name__),
                        why="siblings that disagree at equality make the maximality assertions fail or runs overlap")
     chk.floor("comparisons against a threshold in the classification call tree", n_cmp, 7)
+    # ... and a threshold is used as the number it is: zero is a threshold like any other ("any rain is a storm"),
+    # so nothing in the call tree may branch on its truth value (`thr or default`, `if not thr`)
+    from ..idioms import truthiness_uses, truthiness_control
+    if not truthiness_control():
+        chk.errors.append("C03.O2 positive control (truth value of a threshold) did not match")
+    n_truth = 0
+    for fq in tree:
+        f = ctx.cg.func(fq)
+        local = {n for (q, n), r in roles.items() if q == fq}
+        for node, text in truthiness_uses(f.node, local):
+            n_truth += 1
+            chk.ob("C03.O2", False, where_of(f, node), text, "a threshold is compared as a number; `is None` decides whether it was given",
+                   key="%s|threshold-truth|%s" % (f.qualname, ast.unparse(node)[:40]),
+                   why="a threshold of exactly 0 is replaced or skipped, so the recorded runs are not the runs above the requested threshold")
+    chk.count("truth-value tests of a threshold in the classification call tree (expected 0)", n_truth)
 
     # ------------------------------------------------------------ O3
     for ok, node, f, desc in flow_checks:
